@@ -151,6 +151,10 @@ CALLABLES = {
     "Spline-force_coords-clone": lambda a: _est(clone(vd.Spline(damping=1e-3, force_coords=(a["e"][:6], a["n"][:6]))), a, weights=True),
     "VectorSpline2D-force_coords-clone": lambda a: _est(clone(vd.VectorSpline2D(damping=1e-2, force_coords=(a["e"][:6], a["n"][:6]))), a, weights=True, vector=True),
     "VectorSpline2D": lambda a: _est(vd.VectorSpline2D(damping=1e-2), a, weights=True, vector=True),
+    "VectorSpline2D-decoupled": lambda a: _est(vd.VectorSpline2D(poisson=-1, damping=1e-2), a, weights=True, vector=True),
+    "VectorSpline2D-decoupled-jacobian": lambda a: vd.VectorSpline2D(poisson=-1).jacobian((a["e"], a["n"]), (a["e"][::2] + 0.5, a["n"][::2])),
+    "VectorSpline2D-jacobian": lambda a: vd.VectorSpline2D(poisson=0.25).jacobian((a["e"], a["n"]), (a["e"][::2] + 0.5, a["n"][::2])),
+    "Spline-jacobian": lambda a: vd.Spline().jacobian((a["e"], a["n"]), (a["e"][::2] + 0.5, a["n"][::2])),
     "KNeighbors": lambda a: _est(vd.KNeighbors(k=3), a),
     "Linear": lambda a: _est(vd.Linear(), a),
     "Cubic": lambda a: _est(vd.Cubic(), a),
@@ -184,6 +188,19 @@ def purity_case(name, seed):
     return {"fn": "purity", "kind": "purity-" + name.split(".")[0], "args": [name, seed], "op": "power_comb 0", "key": f"{name}:{seed}"}
 
 
+_JUNK = [0]
+
+
+def _dirty_heap(a):
+    """Fill and release buffers of the sizes a call is likely to allocate next, with a different value each time: a result that depends on
+    memory the function never wrote is then not repeatable."""
+    _JUNK[0] += 1
+    n = max((v.size for v in a.values() if v is not None), default=8)
+    junk = [np.full(shape, 1000.0 * _JUNK[0] + 0.5) for shape in ((2 * n, 2 * n), (n, n), (2 * n, n), (n, 2 * n), (2 * n, 2 * (n // 2 + n % 2)), (n, n // 2 + n % 2),
+                                                                 (2 * n,), (n,), (n // 2 + n % 2,)) for _ in range(2)]
+    del junk
+
+
 def _run_purity(name, seed):
     f = CALLABLES[name]
     with warnings.catch_warnings():
@@ -202,6 +219,7 @@ def _run_purity(name, seed):
         except Exception as exc:  # noqa: BLE001
             r2, ro_err = None, f"{type(exc).__name__}: {str(exc)[:120]}"
         a3 = {k: (None if v is None else v.copy()) for k, v in _data(seed).items()}
+        _dirty_heap(a3)
         r3 = _canon(f(a3))
     return {"mutated": mutated, "readonly_error": ro_err, "same_readonly": ro_err is None and _eq(r1, r2), "repeatable": _eq(r1, r3)}
 
@@ -466,6 +484,10 @@ REJECTS = {
                                                                       coordinates=(np.arange(28.0).reshape(4, 7) / 7, np.arange(28.0).reshape(7, 4) / 9)),
     "distance_mask-extra-coordinate-shape": lambda: vd.distance_mask((np.arange(5.0), np.arange(5.0) % 3), 2.0,
                                                                       coordinates=(np.arange(6.0), np.arange(6.0) / 2, np.arange(5.0))),
+    "grid_coordinates-uint-region-west>east": lambda: vd.grid_coordinates(np.array([200, 10, 0, 50], dtype="uint8"), spacing=5),
+    "inside-uint-region-south>north": lambda: vd.inside((np.arange(6.0), np.arange(6.0)), np.array([0, 50, 40, 10], dtype="uint16")),
+    "scatter_points-uint-region-west>east": lambda: vd.scatter_points(np.array([9, 3, 0, 5], dtype="uint8"), 4, random_state=0),
+    "check_region-huge-int-inverted": lambda: vd.coordinates.check_region([1700000000000000100, 1700000000000000000, 0, 1]),
     "rolling_window-region-west>east": lambda: vd.rolling_window((np.arange(6.0), np.arange(6.0) * 0.5), size=2.0, spacing=1.0, region=(5.0, 0.0, 0.0, 2.5)),
     "rolling_window-region-south>north": lambda: vd.rolling_window((np.arange(6.0), np.arange(6.0) * 0.5), size=1.0, shape=(2, 2), region=(0.0, 5.0, 2.5, 0.0)),
     "block_split-region-west>east": lambda: vd.block_split((np.arange(6.0), np.arange(6.0) * 0.5), spacing=1.0, region=(5.0, 0.0, 0.0, 2.5)),
